@@ -205,7 +205,35 @@ def rand_stages(r, fmt, tgt, n, allow_ex=True):
     return stages
 
 
+def limit_shadow_case(r):
+    """directed: a parser followed by a filter on what it extracted, a limit smaller than the number of candidate lines, and
+    the lines nearest to the scan start FAIL the later filter - the limit must count matching lines, not scanned ones"""
+    fmt = r.choice(['json', 'plain'])
+    s = {'a': r.choice(['v1', 'v2']), 'b': r.choice(['', 'v1', 'n1'])}
+    fwd = r.random() < 0.5
+    ticks = [1, 2, 3, 4]
+    nfail = r.choice([1, 2])
+    failing = set(ticks[:nfail] if fwd else ticks[-nfail:])
+    db = []
+    for t in ticks:
+        good = t not in failing
+        db.append({'s': s, 't': t, 'feats': {'f1'} if good else {'f2'}, 'ty': 'log', 'fmt': fmt,
+                   'fld': {'x': 'v1' if good else 'v2', 'ox': '', 'n': 'n1' if good else 'n3'}})
+    if fmt == 'json':
+        ex = {'k': 'jsonp', 'params': [{'lbl': 'x', 'path': 'x'}] + ([{'lbl': 'n', 'path': 'n'}] if r.random() < 0.5 else [])}
+    else:
+        ex = {'k': 'regexp', 'groups': ['x', 'n'] if r.random() < 0.5 else ['x']}
+    if r.random() < 0.6:
+        flt = {'k': 'lbl', 'tree': {'t': 'leaf', 'lbl': 'x', 'op': '=', 'num': False, 'val': 'v1', 'k': 0}}
+    else:
+        flt = {'k': 'lf', 'op': '|=', 'arg': 'f1'}
+    q = {'m': [{'name': 'a', 'op': '=', 'val': s['a']}], 'p': [ex, flt], 'from': 1, 'to': 5, 'lim': r.choice([1, 1, 2]), 'fwd': fwd}
+    return {'q': q, 'db': db}
+
+
 def rand_case(r):
+    if r.random() < 0.12:
+        return limit_shadow_case(r)
     fmt, db = rand_db(r)
     cands = [e for e in db if e['ty'] == 'log' and 1 <= e['t'] < 5] or db
     tgt = r.choice(cands)
